@@ -27,8 +27,7 @@ pub const REPLAY: &[(&str, fn(&mut vsrc::ReplaySrc))] = &[
     ("c35_total", |s| c35::total(s)),
     ("c35_worst_case_total", |s| c35::worst_case_total(s)),
     ("c35_worst_case_components_fixed", |s| c35::worst_case_components::<_, 0>(s)),
-    ("c35_worst_case_components_k10", |s| c35::worst_case_components::<_, 10>(s)),
-    ("c35_worst_case_components_k20", |s| c35::worst_case_components::<_, 20>(s)),
+    ("c35_worst_case_components_fixed2", |s| c35::worst_case_components::<_, 1>(s)),
     ("c35_table_monotone_k16", |s| c35::table_monotone::<_, 16>(s)),
     ("c35_table_monotone_k20", |s| c35::table_monotone::<_, 20>(s)),
     ("c35_table_monotone_k28", |s| c35::table_monotone::<_, 28>(s)),
